@@ -330,11 +330,20 @@ func hostOnly(hp string) string {
 // checkFields compares the fields of the request's first event with what the
 // handlers of the chain are documented to log for this request.
 func (r *c18Run) checkFields(q *c18Req, picks []int) string {
-	if len(q.ref) == 0 {
-		return ""
+	// every event of the request, wherever in the chain it was logged from (the innermost
+	// handler, or the AccessHandler callback further out): all handlers update the one
+	// logger of the request in place, so each of their fields is on every event
+	for k := range q.ref {
+		if v := r.checkEvent(q, picks, q.ref[k]); v != "" {
+			return fmt.Sprintf("event %d: %s", k, v)
+		}
 	}
+	return ""
+}
+
+func (r *c18Run) checkEvent(q *c18Req, picks []int, raw []byte) string {
 	var ev map[string]interface{}
-	if err := json.Unmarshal(q.ref[0], &ev); err != nil {
+	if err := json.Unmarshal(raw, &ev); err != nil {
 		return "" // not this property's business
 	}
 	req := q.req
